@@ -2,6 +2,7 @@
      <id> id2buf <idhex> <width>
      <id> buf2id <byteshex>
      <id> ctx <max> <send01> <ptr01> <script: r,r,.. | -> <op> <args> ...
+     <id> con <d|s> <idlen> <op> <args> ...      (harness/c12_conn.c)
    prints "M <id> tok..." (mechanism model) and "S <id> tok..." (specification).
    Token formats: see harness/c12_reply.c (same text on the implementation side). *)
 
@@ -144,4 +145,62 @@ let () =
       let toks = String.concat " " (go reqs) in
       Printf.printf "M %s %s\n" id toks;
       Printf.printf "S %s %s\n" id toks
+    | id :: "con" :: mode :: idl :: ops ->
+      let dg = (mode = "d") in
+      let idl = nat_of_int (int_of_string idl) in
+      let rec parse toks = match toks with
+        | [] -> []
+        | "tx" :: m :: r -> CTx (bytes_of_hex m) :: parse r
+        | "dp" :: a :: c :: r ->
+          let acts = if a = "-" then [] else List.map (fun t ->
+            if t = "d" then HDefer
+            else HReply (pay_of (String.sub t 1 (String.length t - 1)))) (String.split_on_char ',' a) in
+          CDp (acts, z_of_int (int_of_string c)) :: parse r
+        | "dp0" :: r -> CDp0 :: parse r
+        | "hr" :: k :: p :: r -> CHr (nat_of_int (int_of_string k), pay_of p) :: parse r
+        | "aw" :: p :: r -> CAw (bytes_of_hex p) :: parse r
+        | "ps" :: p :: r -> CPs (bytes_of_hex p) :: parse r
+        | "pe" :: r -> CPe :: parse r
+        | "sy" :: r -> CSy :: parse r
+        | "cl" :: r -> CCl :: parse r
+        | t :: _ -> failwith ("bad con op " ^ t) in
+      let ops = parse ops in
+      let zs z = string_of_int (int_of_z z) in
+      let show_cret r = match r with
+        | RTx n -> "t" ^ string_of_int (int_of_nat n)
+        | RDp (nx, d, seen, res) ->
+          let nx = (match nx with None -> "n*" | Some None -> "n-" | Some (Some z) -> "n" ^ zs z) in
+          let seen = (match seen with None -> "-" | Some (rc, p) -> Printf.sprintf "0:%d:%s" (if rc then 1 else 0) (hex_of_bytes p)) in
+          let res = if res = [] then "-" else String.concat "," (List.map (fun h -> match h with
+            | HInt z -> zs z | HHandle None -> "hN" | HHandle (Some k) -> "h" ^ string_of_int (int_of_nat k)) res) in
+          Printf.sprintf "%s:d%s:%s:%s" nx (zs d) seen res
+        | RHr None -> "X"
+        | RHr (Some z) -> "i" ^ zs z
+        | RAw (ra, cid, p1, None) -> Printf.sprintf "a%s:%s:%s" (zs ra) (hex_of_n cid) (zs p1)
+        | RAw (ra, cid, p1, Some p2) -> Printf.sprintf "a%s:%s:%s:%s" (zs ra) (hex_of_n cid) (zs p1) (zs p2)
+        | RPe z -> "e" ^ zs z
+        | RSy z -> "s" ^ zs z
+        | RCl -> "c"
+        | RX -> "X" in
+      let show_res (r : cres) =
+        let wc = if r.r_wcalls = [] then "-" else String.concat "," (List.map (fun (t, p) ->
+          Printf.sprintf "W%d=%s" (int_of_nat t) (show_pay p)) r.r_wcalls) in
+        let ws = if r.r_wire = [] then "-" else String.concat ";" (List.map (fun f -> if f = [] then "e" else hex_of_bytes f) r.r_wire) in
+        (if r.r_fault then "F" else show_cret r.r_ret) ^ "|" ^ wc ^ "|" ^ ws in
+      let show_state closed has v tab cid mech =
+        let c = if closed || not has then "x" else (match v.v_ctx with
+          | None -> "0" | Some None -> "-" | Some (Some b) -> hex_of_bytes b) in
+        let h = if v.v_hs = [] then "-" else
+          String.concat "," (List.map (fun o -> match o with None -> "x" | Some b -> hex_of_bytes b) v.v_hs) in
+        let tab = if mech then tab else List.filter (fun e -> e.wetag <> None) tab in
+        let w = if closed then "x" else
+          hex_of_n cid ^ ":" ^ (if tab = [] then "-" else String.concat "," (List.map (fun e ->
+            hex_of_n e.weid ^ "=" ^ (match e.wetag with None -> "." | Some t -> string_of_int (int_of_nat t))) tab)) in
+        c ^ "|" ^ h ^ "|" ^ w in
+      let mt = List.map (fun ((r : cres), (w, c)) ->
+        show_res r ^ "|" ^ show_state c.cclosed c.chas (mview w) c.ctab c.ccid true) (mcrun (minit dg idl) ops) in
+      let st = List.map (fun ((r : cres), (w, c)) ->
+        show_res r ^ "|" ^ show_state c.cclosed c.chas (sview w) c.ctab c.ccid false) (scrun (sinit_c dg idl) ops) in
+      Printf.printf "M %s %s\n" id (String.concat " " mt);
+      Printf.printf "S %s %s\n" id (String.concat " " st)
     | _ -> ()) (read_lines ic)
